@@ -22,6 +22,21 @@ impl Payload for Raw {
     }
 }
 
+/// The same, declared as another payload encoding (header suffix "c").
+#[derive(Clone, Debug, PartialEq, Eq)]
+pub struct RawC(pub Vec<u8>);
+
+impl Payload for RawC {
+    const SUFFIX: &'static str = "c";
+    fn encode(self, mut w: impl WriteBytes) -> Result<(), Box<dyn Error + Send + Sync>> {
+        w.write(&self.0);
+        Ok(())
+    }
+    fn decode(p: &[u8]) -> Result<Self, Box<dyn Error + Send + Sync>> {
+        Ok(RawC(p.to_vec()))
+    }
+}
+
 /// What the spying decoder should do when invoked.
 #[derive(Clone, Copy, PartialEq, Eq, Debug)]
 pub enum DecodeMode {
